@@ -20,7 +20,8 @@ def run(ctx):
     ctx.rule('R08.3', 'the singular candidate is pushed only on the true edge of the limits check for that candidate')
     ctx.rule('R08.4', 'wrappers return the inner constraints() and do not modify solutions after the inner call (except a pure sub-sequence filter)')
     fr = opw.filter_role(prog)
-    ctx.require(len(fr) >= 1, 'limits-filter helper of OPWKinematics (role: Some(c) => c.filter(&x), None => x)')
+    # (the helper may also be written out at each use: a return path then either passes Constraints::filter or lies on the
+    #  edge where self.constraints is None)
     fpaths = {b.path for b in fr}
     for b in fr:
         ctx.fn(b)
@@ -40,6 +41,8 @@ def run(ctx):
             key = '%s/return@%s' % (m, _guard_key(b, d))
             ok = isinstance(t, tuple) and t[0] == 'call' and (t[1] in fpaths or (cname(t[1]) == 'Constraints::filter') or
                                                               (t[1] in entry_paths and util.is_param(t[2], 1)))
+            if not ok and d and any(opw._is_discr_of_self_constraints(g) and k == 0 for g, k, sw in b.guard_terms(d[1])):
+                ok = True            # no limits configured on this path: there is nothing to filter
             ctx.check(ok, 'R08.1', key, b.where(d[1], d[2]) if d else b.where(0), b.path,
                       'a return path delivers solutions that did not pass the joint-limit filter (path condition: %s)' % (guards or 'always'),
                       found=show(t, maxdepth=3), expected='filter_constraints_compliant(..) / a filtered sibling entry point',
